@@ -109,6 +109,7 @@ theorem hdrSt_ok (bufLen : Nat) (tr : Server.Transport) (payload id opcode : Nat
     hdrSt_fields (fun s => s.mostRecentOwner = none) (fun _ _ h => h) _ _ _ _ rfl,
     hdrSt_fields (fun s => s.mostRecentNameInRdata = none) (fun _ _ h => h) _ _ _ _ rfl,
     hdrSt_fields (fun s => s.cursor = 12) (fun _ _ h => h) _ _ _ _ rfl,
+    hdrSt_fields (fun s => s.rrStart = 12) (fun _ _ h => h) _ _ _ _ rfl,
     hdrSt_fields (fun s => s.edns = none) (fun _ _ h => h) _ _ _ _ rfl,
     hdrSt_fields (fun s => s.tsig = none) (fun _ _ h => h) _ _ _ _ rfl,
     hl,
